@@ -79,6 +79,7 @@ ALLOWED = {SP.DisplayAlign, SP.Extent, SP.Origin, SP.Color, SP.BackgroundColor, 
 
 class LcdHarness(Harness):
   name = "c16_lcd"
+  quick_only_for = ("C18",)   # the deep tier runs under the harness's own property; the C18 roll-up reuses the quick partitions
   properties = ("C16", "C18")
   functions = ("filters.doc.lcd:LCDDocFilter.process", "filters.remove_animations:RemoveAnimationFilter.process_element",
                "filters.supported_style_properties:SupportedStylePropertiesFilter.process_element",
@@ -91,7 +92,7 @@ class LcdHarness(Harness):
   bounds = {"quick": "%d documents x 8 region layout kinds (origin/extent/position in %%, px, c, rh; edges) x 5 writing modes x 4 "
                      "displayAlign x config (safe_area symbolic int 0..30, preserve_text_align, color, bg_color), all geometry "
                      "and times symbolic rationals, 0-3 animation steps per element" % len(DOCS),
-            "thorough": "same with second-region layout varied independently"}
+            "thorough": "the quick families with the second region's layout varied independently (4 kinds) and all 8 configurations for the first document"}
   budget_s = {"quick": 280, "thorough": 1500}
 
   # quick tier: (doc, layouts, cfgs, #writing modes r1, #displayAlign r1, #writing modes r2)
@@ -114,10 +115,16 @@ class LcdHarness(Harness):
           for cfg in cfgs:
             out.append({"doc": d, "layout": lay, "cfg": cfg, "nwm": nwm, "nda": nda, "nwm2": nwm2})
       return out
-    for d in range(len(DOCS)):
-      for lay in range(len(LAYOUTS)):
-        for cfg in range(8):
-          out.append({"doc": d, "layout": lay, "cfg": cfg, "nwm": 5, "nda": 4, "nwm2": 2})
+    # thorough: the quick families with the second region's layout varied independently (4 kinds), plus the remaining
+    # configurations for the first document.  (The full product of documents x layouts x configurations x writing modes was
+    # tried twice and did not finish in 90 and 30 minutes on 16 cores; it is stated as outside the thorough bound.)
+    for d, lays, cfgs, nwm, nda, nwm2 in self.QUICK:
+      for lay in lays:
+        for cfg in cfgs:
+          out.append({"doc": d, "layout": lay, "cfg": cfg, "nwm": nwm, "nda": nda, "nwm2": nwm2})
+    for lay in range(len(LAYOUTS)):
+      for cfg in (3, 4, 5, 6):
+        out.append({"doc": 0, "layout": lay, "cfg": cfg, "nwm": 3, "nda": 2, "nwm2": 1})
     return out
 
   def body(self, ex, params):
